@@ -8,6 +8,8 @@
    colour" is this state predicate); the board has the configured side and size^2
    squares. *)
 From Coq Require Import ZArith List.
+(* tie G: the regenerated DIRECTIONS / MoveType values / default piece counts equal the model's (closed by computation) *)
+From TV Require gen.Consts proofs.TieGame.
 From TV Require Import model.Tak model.Run spec.Rules proofs.Invariant.
 Import ListNotations.
 Open Scope Z_scope.
@@ -29,7 +31,7 @@ Proof. exact inv_reachable. Qed.
 Theorem C04_to_move_alternates : forall cfg p m p',
   to_move (from_config cfg) = White /\
   (Inv cfg p -> move p m = Some p' -> to_move p' = flip (to_move p)).
-Proof. intros cfg p m p'. exact (conj (to_move_init cfg) (to_move_alternates cfg p m p')). Qed.
+Proof. exact to_move_alternation. Qed.
 (* every reachable position is well-formed, i.e. C01's hypothesis holds along every game *)
 Theorem C04_wf_reachable : forall cfg ms p,
   3 <= csize cfg <= 8 -> 0 <= flat_count cfg -> 0 <= capstone_count cfg ->
